@@ -456,20 +456,88 @@ def line (l : String) : String :=
 
 end Mem
 
-partial def loop (h : IO.FS.Stream) (out : IO.FS.Stream) (s : St) : IO Unit := do
+/-! ## re-synchronisation with the implementation's observed state
+
+When the harness's observation file is given as the first argument, the driver compares its own
+prediction for a line with what the implementation showed. The prediction is printed unchanged (so the
+disagreement is reported for that line), but if the two differ and the observation is a full one,
+the model continues **from the implementation's observed state** (contents in order with their
+recorded sizes, total, limit, table shape). Every line is thus checked as one transition from the
+state the real code was actually in — the refinement square, step by step — and a divergence at
+one line does not echo through the rest of the sequence. Level B is not tracked further for a cache
+that was re-synchronised (its heap cannot be reconstructed from an observation). -/
+
+def fieldOf (toks : List String) (name : String) : Option String :=
+  toks.findSome? fun t => if t.startsWith (name ++ "=") then some (t.drop (name.length + 1)).toString else none
+
+def bracketItems (s : String) : Option (List String) :=
+  if s.startsWith "[" && s.endsWith "]" then
+    let inner := ((s.drop 1).toString.dropEnd 1).toString
+    some (if inner.isEmpty then [] else inner.splitOn ",")
+  else none
+
+def parseObsCache (obs : String) : Option Cache := do
+  let toks := obs.splitOn " "
+  if toks.contains "WALKERR" then none
+  let len ← (fieldOf toks "len") >>= String.toNat?
+  let cur ← (fieldOf toks "cur") >>= String.toNat?
+  let max ← (fieldOf toks "max") >>= String.toNat?
+  let cap ← (fieldOf toks "cap") >>= String.toNat?
+  let bk ← (fieldOf toks "bk") >>= String.toNat?
+  let ord ← (fieldOf toks "ord") >>= bracketItems
+  let rs ← (fieldOf toks "rs") >>= bracketItems
+  let sizes ← rs.mapM String.toNat?
+  if sizes.length != ord.length || len != ord.length || cap < len then none
+  let ents ← (ord.zip sizes).mapM fun (item, sz) =>
+    match (item.splitOn ":").mapM String.toNat? with
+    | some [id, kh, kt, vh, vt, _] => some ({ key := ⟨id, kh, kt⟩, val := ⟨vh, vt⟩, size := sz } : Entry)
+    | _ => none
+  some { entries := ents, cur := cur, max := max, shape := ⟨bk, len, cap - len⟩ }
+
+/-- The cache whose state the observation of this line shows. -/
+def lineCache (line : String) : Option Nat :=
+  let opPart := (line.trimAscii.toString.splitOn " | ").headD ""
+  match opPart.splitOn " " with
+  | ["F", "clone", _, j, _] => j.toNat?
+  | ["F", "clonefrom", _, j, _] => j.toNat?
+  | "F" :: "new" :: i :: _ => i.toNat?
+  | ["F", "drop", _] => none
+  | "F" :: i :: _ => i.toNat?
+  | _ => none
+
+def resync (s : St) (line obs : String) : St :=
+  match lineCache line with
+  | none => s
+  | some i =>
+    match s.get? i, parseObsCache obs with
+    | some _, some c => s.set i (some (c, none))
+    | _, _ => s
+
+partial def loop (h : IO.FS.Stream) (obs : Option IO.FS.Stream) (out : IO.FS.Stream) (s : St) : IO Unit := do
   let line ← h.getLine
   if line.isEmpty then return ()
+  let obsLine ← match obs with
+    | some o => do let l ← o.getLine; pure (some l.trimAscii.toString)
+    | none => pure none
   if line.startsWith "M " || line.startsWith "H " then
     out.putStrLn (Mem.line line.trimAscii.toString)
-    loop h out s
+    loop h obs out s
   else
     let (s', o) := processLine s line
     out.putStrLn o
-    loop h out s'
+    let s'' := match obsLine with
+      | some ol => if ol != o && !ol.isEmpty then resync s' line ol else s'
+      | none => s'
+    loop h obs out s''
 
 end Driver
 
-def main : IO Unit := do
+def main (args : List String) : IO Unit := do
   let stdin ← IO.getStdin
   let stdout ← IO.getStdout
-  Driver.loop stdin stdout {}
+  let obs ← match args with
+    | path :: _ => do
+      let hd ← IO.FS.Handle.mk path .read
+      pure (some (IO.FS.Stream.ofHandle hd))
+    | [] => pure none
+  Driver.loop stdin obs stdout {}
